@@ -1,5 +1,642 @@
-/- helper lemmas about the generator step machine (C16, C10) -/
+/- helper definitions and lemmas about the generator step machine (C16, C10) -/
 import XrayModel.Gen
 namespace XrayModel.Gen
+
+/-! ### the list-level meaning of the adaptors (on items: values, error values, violations) -/
+
+/-- `map`: a violation passes, everything else (also an error value) goes through the function -/
+def mapItem (f : F) : Item → Item
+  | .viol => .viol
+  | x => f x
+
+/-- what `filter` does with one element: `none` = rejected -/
+def filt (p : P) : Item → Option Item
+  | .viol => some .viol
+  | x => match p x with
+    | .viol => some .viol
+    | .err => some .err
+    | .t => some x
+    | .f => none
+
+/-- `take_while` on a list of items -/
+def twItems (p : P) : List Item → List Item
+  | [] => []
+  | x :: xs =>
+    match x with
+    | .viol => .viol :: twItems p xs
+    | x => match p x with
+      | .viol => .viol :: twItems p xs
+      | .err => .err :: twItems p xs
+      | .t => x :: twItems p xs
+      | .f => []
+
+/-- `skip_until` on a list of items -/
+def suItems (p : P) : List Item → List Item
+  | [] => []
+  | x :: xs =>
+    match x with
+    | .viol => .viol :: suItems p xs
+    | x => match p x with
+      | .viol => .viol :: suItems p xs
+      | .err => .err :: suItems p xs
+      | .t => x :: xs
+      | .f => suItems p xs
+
+/-- `Slice(start, end)` on a list of items: discard `k` (a violation among them is not discarded),
+then at most `t` -/
+def sliceItems : Nat → Option Nat → List Item → List Item
+  | _, some 0, _ => []
+  | _, _, [] => []
+  | 0, t, x :: xs => x :: sliceItems 0 (decTake t) xs
+  | k + 1, t, x :: xs =>
+    match x with
+    | .viol => .viol :: sliceItems k (decTake t) xs
+    | _ => sliceItems k t xs
+
+/-- `aggregate` (a scan) on a list of items, after the initial state has been yielded -/
+def scanItems (f : F2) : Item → List Item → List Item
+  | _, [] => []
+  | st, x :: xs =>
+    match x with
+    | .viol => .viol :: scanItems f st xs
+    | x => match f st x with
+      | .viol => .viol :: scanItems f st xs
+      | r => r :: scanItems f r xs
+
+def takeOpt {α : Type} : Option Nat → List α → List α
+  | none, xs => xs
+  | some n, xs => xs.take n
+
+/-- enough permits for `m` elements -/
+def Permits.covers : Permits → Nat → Prop
+  | .unlimited, _ => True
+  | .left k, m => m ≤ k
+  | .dead, m => m = 0
+
+/-- state after `n` steps (`none`: the iterator has answered `done`) -/
+def after (L : Option Nat) : Nat → It → Option It
+  | 0, it => some it
+  | n + 1, it =>
+    match step L it with
+    | .done => none
+    | .skip s => after L n s
+    | .yield _ s => after L n s
+
+def noViol (xs : List Item) : Prop := ∀ x ∈ xs, x ≠ Item.viol
+
+/-! ### one step of an adaptor is one step of its source -/
+
+theorem step_map (L it f) : step L (.map it f) =
+    match step L it with
+    | .done => .done
+    | .skip s => .skip (.map s f)
+    | .yield x s => .yield (mapItem f x) (.map s f) := by
+  rw [step]
+  cases step L it <;> simp [mapItem]
+  rename_i x s
+  cases x <;> rfl
+
+theorem outs_map (L : Option Nat) (f : F) :
+    ∀ n it, outs L n (.map it f) = (outs L n it).map (mapItem f) := by
+  intro n
+  induction n with
+  | zero => intro it; rfl
+  | succ n ih =>
+    intro it
+    simp only [outs, step_map]
+    cases h : step L it <;> simp [ih]
+
+theorem after_map (L : Option Nat) (f : F) :
+    ∀ n it, after L n (.map it f) = (after L n it).map (fun s => .map s f) := by
+  intro n
+  induction n with
+  | zero => intro it; rfl
+  | succ n ih =>
+    intro it
+    simp only [after, step_map]
+    cases h : step L it <;> simp [ih]
+
+theorem ended_map (L : Option Nat) (f : F) :
+    ∀ n it, ended L n (.map it f) = ended L n it := by
+  intro n
+  induction n with
+  | zero => intro it; rfl
+  | succ n ih =>
+    intro it
+    simp only [ended, step_map]
+    cases h : step L it <;> simp [ih]
+
+theorem covers_next_ok {perm : Permits} {m : Nat} (h : perm.covers (m + 1)) :
+    ∃ perm', perm.next = (.ok, perm') ∧ perm'.covers m := by
+  cases perm with
+  | unlimited => exact ⟨.unlimited, rfl, trivial⟩
+  | left k =>
+    cases k with
+    | zero => simp [Permits.covers] at h
+    | succ k => exact ⟨.left k, rfl, by simp [Permits.covers] at h ⊢; omega⟩
+  | dead => simp [Permits.covers] at h
+
+theorem covers_mono {perm : Permits} {m m' : Nat} (h : perm.covers m) (hm : m' ≤ m) : perm.covers m' := by
+  cases perm <;> simp [Permits.covers] at h ⊢ <;> omega
+
+theorem outs_length_le (L : Option Nat) : ∀ n it, (outs L n it).length ≤ n := by
+  intro n
+  induction n with
+  | zero => intro it; simp [outs]
+  | succ n ih =>
+    intro it
+    simp only [outs]
+    cases h : step L it <;> simp
+    · have := ih ‹It›; omega
+    · have := ih ‹It›; omega
+
+/-- `filter` with enough permits for the elements its source yields -/
+theorem outs_filter (L : Option Nat) (p : P) :
+    ∀ n it perm, perm.covers (outs L n it).length →
+      outs L n (.filter it p perm) = (outs L n it).filterMap (filt p) := by
+  intro n
+  induction n with
+  | zero => intro it perm _; rfl
+  | succ n ih =>
+    intro it perm hc
+    simp only [outs] at hc ⊢
+    rw [step]
+    cases h : step L it with
+    | done => simp
+    | skip s => simp only [h] at hc; simp [ih s perm hc]
+    | «yield» x s =>
+      simp only [h, List.length_cons] at hc
+      obtain ⟨perm', hn, hc'⟩ := covers_next_ok hc
+      simp only [hn]
+      cases x with
+      | viol => simp [filt, ih s perm' hc']
+      | err =>
+        simp only [List.filterMap_cons, filt]
+        cases p .err <;> simp [ih s perm' hc']
+      | val v =>
+        simp only [List.filterMap_cons, filt]
+        cases p (.val v) <;> simp [ih s perm' hc']
+
+theorem after_filter (L : Option Nat) (p : P) :
+    ∀ n it perm, perm.covers (outs L n it).length →
+      ∃ perm', after L n (.filter it p perm) = (after L n it).map (fun s => .filter s p perm') := by
+  intro n
+  induction n with
+  | zero => intro it perm _; exact ⟨perm, rfl⟩
+  | succ n ih =>
+    intro it perm hc
+    simp only [outs] at hc
+    simp only [after]
+    rw [step]
+    cases h : step L it with
+    | done => exact ⟨perm, by simp⟩
+    | skip s => simp only [h] at hc; simpa using ih s perm hc
+    | «yield» x s =>
+      simp only [h, List.length_cons] at hc
+      obtain ⟨perm', hn, hc'⟩ := covers_next_ok hc
+      simp only [hn]
+      obtain ⟨q, hq⟩ := ih s perm' hc'
+      refine ⟨q, ?_⟩
+      cases x with
+      | viol => simpa using hq
+      | err => dsimp only; generalize p Item.err = r; cases r <;> simpa using hq
+      | val v => dsimp only; generalize p (Item.val v) = r; cases r <;> simpa using hq
+
+theorem outs_takeWhile (L : Option Nat) (p : P) :
+    ∀ n it, outs L n (.takeWhile it p) = twItems p (outs L n it) := by
+  intro n
+  induction n with
+  | zero => intro it; rfl
+  | succ n ih =>
+    intro it
+    simp only [outs]
+    rw [step]
+    cases h : step L it with
+    | done => simp [twItems]
+    | skip s => simp [ih]
+    | «yield» x s =>
+      cases x with
+      | viol => simp [twItems, ih]
+      | err => simp only [twItems]; cases p .err <;> simp [ih]
+      | val v => simp only [twItems]; cases p (.val v) <;> simp [ih]
+
+theorem outs_skipUntil_found (L : Option Nat) (p : P) (perm : Permits) :
+    ∀ n it, outs L n (.skipUntil it p true perm) = outs L n it := by
+  intro n
+  induction n with
+  | zero => intro it; rfl
+  | succ n ih =>
+    intro it
+    simp only [outs]
+    rw [step]
+    cases h : step L it <;> simp [ih]
+
+theorem outs_skipUntil (L : Option Nat) (p : P) :
+    ∀ n it perm, perm.covers (outs L n it).length →
+      outs L n (.skipUntil it p false perm) = suItems p (outs L n it) := by
+  intro n
+  induction n with
+  | zero => intro it perm _; rfl
+  | succ n ih =>
+    intro it perm hc
+    simp only [outs] at hc ⊢
+    rw [step]
+    cases h : step L it with
+    | done => simp [suItems]
+    | skip s => simp only [h] at hc; simp [ih s perm hc]
+    | «yield» x s =>
+      simp only [h, List.length_cons] at hc
+      obtain ⟨perm', hn, hc'⟩ := covers_next_ok hc
+      simp only [hn, Bool.false_eq_true, ↓reduceIte]
+      cases x with
+      | viol => simp [suItems, ih s perm' hc']
+      | err => simp only [suItems]; cases p .err <;> simp [ih s perm' hc', outs_skipUntil_found]
+      | val v => simp only [suItems]; cases p (.val v) <;> simp [ih s perm' hc', outs_skipUntil_found]
+
+/-! ### slices -/
+
+theorem sliceItems_nil (k : Nat) (t : Option Nat) : sliceItems k t [] = [] := by
+  cases t with
+  | none => cases k <;> rfl
+  | some t => cases t <;> cases k <;> rfl
+
+theorem outs_slice (L : Option Nat) :
+    ∀ n it k perm t, Permits.covers perm k →
+      outs L n (.slice it k perm t) = sliceItems k t (outs L n it) := by
+  intro n
+  induction n with
+  | zero => intro it k perm t _; simp [outs, sliceItems_nil]
+  | succ n ih =>
+    intro it k perm t hc
+    simp only [outs]
+    by_cases ht : t = some 0
+    · subst ht; rw [step]; simp [sliceItems]
+    · rw [step]
+      rotate_left
+      · intro h; exact ht h
+      have hsl : ∀ (k : Nat) (x : Item) (xs : List Item), sliceItems k t (x :: xs) =
+          (match k with
+           | 0 => x :: sliceItems 0 (decTake t) xs
+           | k + 1 => match x with
+             | .viol => .viol :: sliceItems k (decTake t) xs
+             | _ => sliceItems k t xs) := by
+        intro k x xs
+        cases t with
+        | none => cases k <;> rfl
+        | some t =>
+          cases t with
+          | zero => exact absurd rfl ht
+          | succ t => cases k <;> rfl
+      cases h : step L it with
+      | done => simp [sliceItems_nil]
+      | skip s => simp [ih s k perm t hc]
+      | «yield» x s =>
+        rw [hsl]
+        cases k with
+        | zero => simp [ih s 0 perm (decTake t) hc]
+        | succ k =>
+          obtain ⟨perm', hn, hc'⟩ := covers_next_ok hc
+          simp only [hn]
+          cases x <;> simp [ih s k perm' _ hc']
+
+theorem sliceItems_noViol : ∀ (xs : List Item) (k : Nat) (t : Option Nat), noViol xs →
+    sliceItems k t xs = takeOpt t (xs.drop k) := by
+  intro xs
+  induction xs with
+  | nil => intro k t _; rw [sliceItems_nil]; cases t <;> simp [takeOpt]
+  | cons x xs ih =>
+    intro k t hv
+    have hx : x ≠ .viol := hv x (by simp)
+    have hxs : noViol xs := fun y hy => hv y (by simp [hy])
+    cases t with
+    | none =>
+      cases k with
+      | zero => simp [sliceItems, decTake, takeOpt]; simpa [takeOpt] using ih 0 none hxs
+      | succ k => cases x <;> simp_all [sliceItems, takeOpt]
+    | some t =>
+      cases t with
+      | zero => simp [sliceItems, takeOpt]
+      | succ t =>
+        cases k with
+        | zero => simp [sliceItems, decTake, takeOpt]; simpa [takeOpt] using ih 0 (some t) hxs
+        | succ k => cases x <;> simp_all [sliceItems, takeOpt]
+
+/-! ### aggregate, budget -/
+
+theorem outs_aggregate (L : Option Nat) (f : F2) :
+    ∀ n it st, outs L n (.aggregate it st f false) = scanItems f st (outs L n it) := by
+  intro n
+  induction n with
+  | zero => intro it st; simp [outs, scanItems]
+  | succ n ih =>
+    intro it st
+    simp only [outs]
+    rw [step]
+    simp only [Bool.false_eq_true, ↓reduceIte]
+    cases h : step L it with
+    | done => simp [scanItems]
+    | skip s => simp [ih]
+    | «yield» x s =>
+      cases x with
+      | viol => simp [scanItems, ih]
+      | err => simp only [scanItems]; generalize f st Item.err = r; cases r <;> simp [ih]
+      | val v => simp only [scanItems]; generalize f st (Item.val v) = r; cases r <;> simp [ih]
+
+theorem outs_aggregate_first (L : Option Nat) (f : F2) (n : Nat) (it : It) (st : Item) :
+    outs L (n + 1) (.aggregate it st f true) = st :: scanItems f st (outs L n it) := by
+  simp only [outs]
+  rw [step]
+  simp [outs_aggregate]
+
+theorem outs_budget (L : Option Nat) :
+    ∀ n it perm, Permits.covers perm (outs L n it).length →
+      outs L n (.budget it perm) = outs L n it := by
+  intro n
+  induction n with
+  | zero => intro it perm _; rfl
+  | succ n ih =>
+    intro it perm hc
+    simp only [outs] at hc ⊢
+    rw [step]
+    cases h : step L it with
+    | done => simp
+    | skip s => simp only [h] at hc; simp [ih s perm hc]
+    | «yield» x s =>
+      simp only [h, List.length_cons] at hc
+      obtain ⟨perm', hn, hc'⟩ := covers_next_ok hc
+      simp [hn, ih s perm' hc']
+
+theorem after_budget (L : Option Nat) :
+    ∀ n it perm, Permits.covers perm (outs L n it).length →
+      (after L n (.budget it perm)).isNone = (after L n it).isNone := by
+  intro n
+  induction n with
+  | zero => intro it perm _; rfl
+  | succ n ih =>
+    intro it perm hc
+    simp only [outs] at hc
+    simp only [after]
+    rw [step]
+    cases h : step L it with
+    | done => simp
+    | skip s => simp only [h] at hc; simp [ih s perm hc]
+    | «yield» x s =>
+      simp only [h, List.length_cons] at hc
+      obtain ⟨perm', hn, hc'⟩ := covers_next_ok hc
+      simp [hn, ih s perm' hc']
+
+/-! ### splitting a run, finite denotations, chains -/
+
+theorem outs_add (L : Option Nat) : ∀ k m it,
+    outs L (k + m) it = outs L k it ++ (match after L k it with | some s => outs L m s | none => []) := by
+  intro k
+  induction k with
+  | zero => intro m it; simp [outs, after]
+  | succ k ih =>
+    intro m it
+    rw [show k + 1 + m = (k + m) + 1 by omega]
+    simp only [outs, after]
+    cases h : step L it <;> simp [ih]
+
+theorem after_add (L : Option Nat) : ∀ k m it,
+    after L (k + m) it = (after L k it).bind (after L m) := by
+  intro k
+  induction k with
+  | zero => intro m it; simp [after]
+  | succ k ih =>
+    intro m it
+    rw [show k + 1 + m = (k + m) + 1 by omega]
+    simp only [after]
+    cases h : step L it <;> simp [ih]
+
+/-- the iterator yields exactly `xs` and then answers `done` -/
+def Den (L : Option Nat) (it : It) (xs : List Item) : Prop :=
+  ∃ n, after L n it = none ∧ outs L n it = xs
+
+theorem den_arr (L : Option Nat) (vs : List V) : Den L (.arr vs) (vs.map Item.val) := by
+  induction vs with
+  | nil => exact ⟨1, by simp [after, step], by simp [outs, step]⟩
+  | cons v vs ih =>
+    obtain ⟨n, h1, h2⟩ := ih
+    exact ⟨n + 1, by simp [after, step, h1], by simp [outs, step, h2]⟩
+
+theorem den_map {L it xs} (f : F) (h : Den L it xs) : Den L (.map it f) (xs.map (mapItem f)) := by
+  obtain ⟨n, h1, h2⟩ := h
+  exact ⟨n, by simp [after_map, h1], by simp [outs_map, h2]⟩
+
+theorem den_filter {L it xs} (p : P) (perm : Permits) (h : Den L it xs) (hc : perm.covers xs.length) :
+    Den L (.filter it p perm) (xs.filterMap (filt p)) := by
+  obtain ⟨n, h1, h2⟩ := h
+  have hc' : perm.covers (outs L n it).length := by rw [h2]; exact hc
+  obtain ⟨q, hq⟩ := after_filter L p n it perm hc'
+  exact ⟨n, by simp [hq, h1], by rw [outs_filter L p n it perm hc', h2]⟩
+
+theorem den_budget {L it xs} (perm : Permits) (h : Den L it xs) (hc : perm.covers xs.length) :
+    Den L (.budget it perm) xs := by
+  obtain ⟨n, h1, h2⟩ := h
+  have hc' : perm.covers (outs L n it).length := by rw [h2]; exact hc
+  refine ⟨n, ?_, by rw [outs_budget L n it perm hc', h2]⟩
+  have := after_budget L n it perm hc'
+  rw [h1] at this
+  simpa using this
+
+theorem step_chain (L : Option Nat) (cur : It) (rest : List G) : step L (.chain cur rest) =
+    match step L cur with
+    | .yield x s => .yield x (.chain s rest)
+    | .skip s => .skip (.chain s rest)
+    | .done =>
+      match rest with
+      | [] => .done
+      | g :: r => .skip (.chain (g.start L) r) := by
+  cases rest <;> rw [step] <;> cases step L cur <;> rfl
+
+/-- every part denotes a finite list; the whole is their concatenation -/
+inductive DenParts (L : Option Nat) : List G → List Item → Prop
+  | nil : DenParts L [] []
+  | cons {g r ys zs} : Den L (g.start L) ys → DenParts L r zs → DenParts L (g :: r) (ys ++ zs)
+
+/-- while the current part runs, the chain is that part -/
+theorem chain_running (L : Option Nat) (rest : List G) : ∀ k cur c,
+    after L k cur = some c →
+      after L k (.chain cur rest) = some (.chain c rest) ∧ outs L k (.chain cur rest) = outs L k cur := by
+  intro k
+  induction k with
+  | zero => intro cur c h; simp [after] at h; subst h; simp [after, outs]
+  | succ k ih =>
+    intro cur c h
+    simp only [after] at h
+    simp only [after, outs]
+    rw [step_chain]
+    cases hs : step L cur with
+    | done => simp [hs] at h
+    | skip s => simp only [hs] at h; simpa using ih s c h
+    | «yield» x s => simp only [hs] at h; simpa using ih s c h
+
+theorem den_chain_cons {L cur g r xs ys} (h1 : Den L cur xs) (h2 : Den L (.chain (g.start L) r) ys) :
+    Den L (.chain cur (g :: r)) (xs ++ ys) := by
+  obtain ⟨n, hn, hx⟩ := h1
+  obtain ⟨m, hm, hy⟩ := h2
+  -- find the step at which `cur` answers done
+  have key : ∀ n cur xs, after L n cur = none → outs L n cur = xs →
+      ∃ k, after L k (.chain cur (g :: r)) = some (.chain (g.start L) r) ∧ outs L k (.chain cur (g :: r)) = xs := by
+    intro n
+    induction n with
+    | zero => intro cur xs h; simp [after] at h
+    | succ n ih =>
+      intro cur xs h ho
+      simp only [after] at h
+      simp only [outs] at ho
+      cases hs : step L cur with
+      | done =>
+        simp only [hs] at ho
+        refine ⟨1, ?_, ?_⟩
+        · simp only [after]; rw [step_chain]; simp [hs]
+        · simp only [outs]; rw [step_chain]; simp [hs, ← ho]
+      | skip s =>
+        simp only [hs] at h ho
+        obtain ⟨k, hk1, hk2⟩ := ih s xs h ho
+        refine ⟨k + 1, ?_, ?_⟩
+        · simp only [after]; rw [step_chain]; simp [hs, hk1]
+        · simp only [outs]; rw [step_chain]; simp [hs, hk2]
+      | «yield» x s =>
+        simp only [hs] at h ho
+        cases xs with
+        | nil => simp at ho
+        | cons x' xs' =>
+          simp only [List.cons.injEq] at ho
+          obtain ⟨k, hk1, hk2⟩ := ih s xs' h ho.2
+          refine ⟨k + 1, ?_, ?_⟩
+          · simp only [after]; rw [step_chain]; simp [hs, hk1]
+          · simp only [outs]; rw [step_chain]; simp [hs, hk2, ho.1]
+  obtain ⟨k, hk1, hk2⟩ := key n cur xs hn hx
+  refine ⟨k + m, ?_, ?_⟩
+  · rw [after_add, hk1]; simpa using hm
+  · rw [outs_add, hk1, hk2]; simp [hy]
+
+theorem den_chain_nil {L cur xs} (h1 : Den L cur xs) : Den L (.chain cur []) xs := by
+  obtain ⟨n, hn, hx⟩ := h1
+  have key : ∀ n cur xs, after L n cur = none → outs L n cur = xs →
+      after L n (.chain cur []) = none ∧ outs L n (.chain cur []) = xs := by
+    intro n
+    induction n with
+    | zero => intro cur xs h; simp [after] at h
+    | succ n ih =>
+      intro cur xs h ho
+      simp only [after] at h
+      simp only [outs] at ho
+      simp only [after, outs]
+      rw [step_chain]
+      cases hs : step L cur with
+      | done => simp only [hs] at ho; simp [← ho]
+      | skip s => simp only [hs] at h ho; simpa using ih s xs h ho
+      | «yield» x s =>
+        simp only [hs] at h ho
+        cases xs with
+        | nil => simp at ho
+        | cons x' xs' =>
+          simp only [List.cons.injEq] at ho
+          obtain ⟨a, b⟩ := ih s xs' h ho.2
+          simp [a, b, ho.1]
+  exact ⟨n, key n cur xs hn hx⟩
+
+/-- a chain whose parts denote lists denotes their concatenation -/
+theorem den_chain_parts (L : Option Nat) : ∀ (parts : List G) (zs : List Item) (cur : It) (xs : List Item),
+    Den L cur xs → DenParts L parts zs → Den L (.chain cur parts) (xs ++ zs) := by
+  intro parts
+  induction parts with
+  | nil => intro zs cur xs h hp; cases hp; simpa using den_chain_nil h
+  | cons g r ih =>
+    intro zs cur xs h hp
+    cases hp with
+    | cons hg hr =>
+      rename_i ys zs'
+      have := ih zs' (g.start L) ys hg hr
+      exact den_chain_cons h this
+
+/-! ### consumers -/
+
+theorem drain_den (L : Option Nat) : ∀ n it (vs acc : List V),
+    after L n it = none → outs L n it = vs.map Item.val →
+      drain L n it acc = .ok (acc.reverse ++ vs) := by
+  intro n
+  induction n with
+  | zero => intro it vs acc h; simp [after] at h
+  | succ n ih =>
+    intro it vs acc h ho
+    simp only [after] at h
+    simp only [outs] at ho
+    simp only [drain]
+    cases hs : step L it with
+    | done =>
+      simp only [hs] at ho
+      cases vs with
+      | nil => simp
+      | cons v vs => simp at ho
+    | skip s => simp only [hs] at h ho; simpa using ih s vs acc h ho
+    | «yield» x s =>
+      simp only [hs] at h ho
+      cases vs with
+      | nil => simp at ho
+      | cons v vs =>
+        simp only [List.map_cons, List.cons.injEq] at ho
+        obtain ⟨hx, ho⟩ := ho
+        subst hx
+        simpa using ih s vs (v :: acc) h ho
+
+/-! ### construction: slice merging, chain splicing -/
+
+theorem noViol_takeOpt_drop {xs : List Item} (t : Option Nat) (k : Nat) (h : noViol xs) :
+    noViol (takeOpt t (xs.drop k)) := by
+  intro x hx
+  apply h x
+  cases t with
+  | none => exact List.mem_of_mem_drop (by simpa [takeOpt] using hx)
+  | some t => exact List.mem_of_mem_drop (List.mem_of_mem_take (by simpa [takeOpt] using hx))
+
+/-- the end of two merged slices (`generators.rs:505-509`) -/
+def mergeEnd (iend : Option Nat) (end_ : Option Nat) (istart : Nat) : Option Nat :=
+  match iend, end_.map (· + istart) with
+  | none, none => none
+  | some a, none => some a
+  | none, some b => some b
+  | some a, some b => some (min a b)
+
+theorem slice_slice_list (xs : List Item) (a c : Nat) (b d : Option Nat) :
+    takeOpt (d.map (· - c)) ((takeOpt (b.map (· - a)) (xs.drop a)).drop c) =
+    takeOpt ((mergeEnd b d a).map (· - (a + c))) (xs.drop (a + c)) := by
+  unfold mergeEnd
+  cases b <;> cases d <;> simp [takeOpt, List.drop_take, List.take_take, List.drop_drop, Nat.add_comm] <;> omega
+
+/-- a (single, unmerged) slice of any generator: drop `a`, then at most `b - a` -/
+theorem outs_start_slice (L : Option Nat) (n : Nat) (g : G) (a : Nat) (b : Option Nat)
+    (hc : (Permits.ofLimit L).covers a) (hv : noViol (outs L n (g.start L))) :
+    outs L n ((G.slice g a b).start L) = takeOpt (b.map (· - a)) ((outs L n (g.start L)).drop a) := by
+  rw [G.start, outs_slice L n _ a _ _ hc, sliceItems_noViol _ _ _ hv]
+
+theorem mkSlice_slice (inner : G) (a : Nat) (b : Option Nat) (c : Nat) (d : Option Nat)
+    (h : ¬ (c = 0 ∧ d = none)) :
+    G.mkSlice (.slice inner a b) c d = .slice inner (a + c) (mergeEnd b d a) := by
+  unfold G.mkSlice mergeEnd
+  have : (c == 0 && d.isNone) = false := by
+    cases d <;> simp_all
+  simp only [this]
+  cases b <;> cases d <;> simp
+
+/-- the parts a generator contributes to a chain -/
+def G.parts : G → List G
+  | .chain ps => ps
+  | g => [g]
+
+theorem mkChain_parts (a b : G) : a.mkChain b = .chain (a.parts ++ b.parts) := by
+  cases a <;> cases b <;> rfl
+
+theorem denParts_append {L p0 p1 xs ys} (h0 : DenParts L p0 xs) (h1 : DenParts L p1 ys) :
+    DenParts L (p0 ++ p1) (xs ++ ys) := by
+  induction h0 with
+  | nil => simpa using h1
+  | cons hg _ ih => simpa [List.append_assoc] using DenParts.cons hg ih
+
+theorem den_arr_nil (L : Option Nat) : Den L (.arr []) [] := by
+  simpa using den_arr L []
 
 end XrayModel.Gen
